@@ -23,8 +23,9 @@ RPOOL = ['', '1', '11', 'a']      # adversarial cell values for the real-pandas 
 INFO = {
     'engine': 'crosshair-tool 0.0.110 + z3',
     'explanation': 'see level text',
-    'bounds': {'quick': {c: 'see precondition in harness/ch_c10.py' for c in CONDS}, 'thorough': {c: 'same conditions with one more symbolic character per string, longer per-condition budget' for c in CONDS}},
-    'outside': ['interaction order 4', '64-bit hash collisions', 'frames with more than 2 rows (row-wise rule)'],
+    'bounds': {'quick': dict({c: 'see precondition in harness/ch_c10.py' for c in CONDS}, **{'real-frames-index': '3 rows (one repeats another), cells from 3 adversarial values, row index default/reversed/rotated/gapped/string labels, orders 2..3, real pandas'}),
+               'thorough': dict({c: 'same conditions with one more symbolic character per string, longer per-condition budget' for c in CONDS}, **{'real-frames-index': 'as quick'})},
+    'outside': ['interaction order 4', '64-bit hash collisions', 'frames with more than 3 rows (row-wise rule)'],
     'assumptions': ['pandas replaced by the list-backed sympd stand-in (validated differentially)', 'xxhash replaced by an injective stand-in', 'SequenceConcatenation.__eq__ of crosshair 0.0.110 patched (see DESIGN 2.3)'],
     'job_timeout': {'quick': 400, 'thorough': 1500},
     'max_replays': 8,
@@ -43,6 +44,9 @@ def jobs(tier):
                 out.append({'cond': 'real-frames', 'pins': {'lpos': lpos, 'order': order, 'c0': c0}, 'weight': 5, 'label': f'label@{lpos},order={order},c0={c0}'})
     for order, ml in ((2, 4), (3, 2)):
         out.append({'cond': 'z3-strings', 'order': order, 'maxlen': ml, 'pins': {}, 'weight': 50, 'label': f'order={order},cells<= {ml} chars'})
+    for ix in range(len(INDEX_KINDS)):
+        for lpos in (0, 3):
+            out.append({'cond': 'real-frames-index', 'pins': {'ix': ix, 'lpos': lpos}, 'weight': 8, 'label': f'3 rows, row index {list(INDEX_KINDS)[ix]}, label@{lpos}'})
     # four features, order 3: several candidates share their leading constituents in one call
     for lpos in (0, 4):
         for c0 in range(3):
@@ -51,13 +55,17 @@ def jobs(tier):
     return out
 
 
-def real_check(cols, rows, order, cap=100):
+INDEX_KINDS = {'default': lambda n: list(range(n)), 'reversed': lambda n: list(range(n))[::-1], 'rotated': lambda n: list(range(1, n)) + [0],
+               'gapped': lambda n: [5, 2, 9, 14][:n], 'labels': lambda n: [f'r{i}' for i in range(n)][::-1]}
+
+
+def real_check(cols, rows, order, cap=100, index='default'):
     """real compute_combined_features on real pandas; returns the list of problems"""
     loader.use_repo_on_syspath()
     import pandas as pd
     import outrank.core_ranking as cr
     cr.GLOBAL_PRIOR_COMB_COUNTS.clear()
-    df = pd.DataFrame(rows, columns=cols)
+    df = pd.DataFrame(rows, columns=cols, index=INDEX_KINDS[index](len(rows)))
     args = types.SimpleNamespace(label_column='label', interaction_order=order, reference_model_JSON='', heuristic='MI-numba-randomized', combination_number_upper_bound=cap)
     PB = types.SimpleNamespace(set_description=lambda *a, **k: None)
     try:
@@ -66,6 +74,8 @@ def real_check(cols, rows, order, cap=100):
         cr.GLOBAL_PRIOR_COMB_COUNTS.clear()
     probs = []
     feats = [c for c in cols if c != 'label']
+    if len(out) != len(rows):
+        return [f'{len(out)} rows returned for a frame of {len(rows)} rows']
     if list(out.columns[:len(cols)]) != cols or any(out[c].tolist() != df[c].tolist() for c in cols):
         probs.append('original columns changed')
     combos = list(itertools.combinations(feats, order))
@@ -78,9 +88,15 @@ def real_check(cols, rows, order, cap=100):
             probs.append(f'column {nm!r} is not named after a combination of the constituents')
             continue
         col = out[nm].tolist()
-        t0, t1 = tuple(rows[0][cols.index(p)] for p in parts), tuple(rows[1][cols.index(p)] for p in parts)
-        if (col[0] == col[1]) != (t0 == t1):
-            probs.append(f'{nm!r}: value tuples {t0} and {t1} ' + ('differ but get the same interaction value' if t0 != t1 else 'are equal but get different interaction values'))
+        # "up to 64-bit hash collisions": a value representation with less than 64 bits of capacity aliases more often than that
+        bits = min((len(v) * (4 if all(ch in '0123456789abcdefABCDEF' for ch in v) else 8)) if isinstance(v, str) else 64 for v in col)
+        if bits < 64:
+            probs.append(f'digest-width: the values of {nm!r} carry at most {bits} bits (e.g. {col[0]!r}); distinct value tuples then alias far more often than 64-bit collisions')
+        for i, j in itertools.combinations(range(len(rows)), 2):
+            t0, t1 = tuple(rows[i][cols.index(p)] for p in parts), tuple(rows[j][cols.index(p)] for p in parts)
+            if (col[i] == col[j]) != (t0 == t1):
+                probs.append(f'{nm!r}: value tuples {t0} and {t1} (rows {i}, {j}) ' + ('differ but get the same interaction value' if t0 != t1 else 'are equal but get different interaction values'))
+                break
     return probs
 
 
@@ -88,7 +104,9 @@ def run_real(job):
     loader.record_functions('outrank/core_ranking.py', ['compute_combined_features', 'prior_combinations_sample'])
     st = {}
     NF = 4 if job['cond'] == 'real-frames-4' else 3
-    POOL = RPOOL[:3] if NF == 4 else RPOOL
+    IX = job['cond'] == 'real-frames-index'      # three rows (the third repeats one of the first two) under every kind of row index
+    POOL = RPOOL[:3] if NF == 4 or IX else RPOOL
+    KINDS = list(INDEX_KINDS)
 
     def setup(ctx):
         st['c'] = [z3.Int(f'c{i}') for i in range(2 * NF)]
@@ -96,6 +114,10 @@ def run_real(job):
             ctx.assume(v >= 0, v < len(POOL))
         st['lpos'], st['order'] = z3.Int('lpos'), z3.Int('order')
         ctx.assume(st['lpos'] >= 0, st['lpos'] <= NF, st['order'] >= 2, st['order'] <= 3)
+        st['ix'], st['dup'] = z3.Int('ix'), z3.Int('dup')
+        ctx.assume(st['ix'] >= 0, st['ix'] < len(KINDS), st['dup'] >= 0, st['dup'] <= 1)
+        if not IX:
+            ctx.assume(st['ix'] == 0, st['dup'] == 0)
         for k, v in job['pins'].items():
             ctx.assume(z3.Int(k) == v)
 
@@ -107,9 +129,13 @@ def run_real(job):
         rows = [cells[:NF], cells[NF:]]
         for r, lab in zip(rows, ('0', '1')):
             r.insert(lpos, lab)
-        w = {'cond': 'real-frames', 'fn': 'real-frames', 'cols': cols, 'rows': rows, 'order': order}
+        index = 'default'
+        if IX:
+            index = KINDS[int(SInt(st['ix'], 0, len(KINDS) - 1))]
+            rows.insert(0, list(rows[int(SInt(st['dup'], 0, 1))]))      # rows: copy, r0, r1
+        w = {'cond': 'real-frames', 'fn': 'real-frames', 'cols': cols, 'rows': rows, 'order': order, 'index': index}
         try:
-            probs = real_check(cols, rows, order)
+            probs = real_check(cols, rows, order, index=index)
         except Exception as e:
             probs = [f'{type(e).__name__}: {e}']
         if probs or out.twin:
@@ -166,7 +192,7 @@ def run_z3strings(job):
 def run_job(job):
     if job['cond'] == 'z3-strings':
         return run_z3strings(job)
-    if job['cond'] in ('real-frames', 'real-frames-4'):
+    if job['cond'] in ('real-frames', 'real-frames-4', 'real-frames-index'):
         return run_real(job)
     fname = job['cond'] + ('_twin' if job.get('twin') else '')
     r = chrun.run_condition('harness.ch_c10', fname, TIMEOUT[job['tier']], loader.REPO, extra_env={'CH_EXTRA': '1' if job['tier'] == 'thorough' else '0'})
@@ -191,14 +217,26 @@ def replay(w):
     import outrank.core_ranking as cr
     if w['fn'] == 'real-frames':
         try:
-            probs = real_check(w['cols'], w['rows'], w['order'])
+            probs = real_check(w['cols'], w['rows'], w['order'], index=w.get('index', 'default'))
         except Exception as e:
             import traceback
             tb = traceback.extract_tb(e.__traceback__)[-1]
             return {'reproduced': True, 'signature': f'C10:exception:{type(e).__name__}:{tb.name}', 'what': f'compute_combined_features on columns {w["cols"]}, rows {w["rows"]}: {type(e).__name__}: {e}'}
+        if probs and all(p.startswith('digest-width') for p in probs):
+            # confirm on the real build: a birthday search over distinct value pairs must actually find aliased tuples
+            n = 400000
+            big = pd.DataFrame({'user': [f'{7000000000000000 + 7919 * i:016d}' for i in range(n)], 'site': [f's{i % 977}' for i in range(n)], 'label': ['0', '1'] * (n // 2)})
+            args = types.SimpleNamespace(label_column='label', interaction_order=2, reference_model_JSON='', heuristic='MI-numba-randomized', combination_number_upper_bound=100)
+            cr.GLOBAL_PRIOR_COMB_COUNTS.clear()
+            o = cr.compute_combined_features(big, args, types.SimpleNamespace(set_description=lambda *a, **k: None))
+            cr.GLOBAL_PRIOR_COMB_COUNTS.clear()
+            distinct = o['user AND site'].nunique()
+            if distinct < n:
+                return {'reproduced': True, 'signature': 'C10:digest-width', 'what': probs[0] + f'; on a frame of {n} distinct (user, site) pairs the interaction column has only {distinct} distinct values'}
+            return {'reproduced': False, 'what': f'{n} distinct pairs give {distinct} distinct interaction values'}
         if probs:
             sig = 'C10:tuple-aliasing-by-concatenation' if any('get the same interaction value' in p for p in probs) else 'C10:' + probs[0].split()[0]
-            return {'reproduced': True, 'signature': sig, 'what': f'columns {w["cols"]}, rows {w["rows"]}, order {w["order"]}: ' + '; '.join(probs)[:400]}
+            return {'reproduced': True, 'signature': sig, 'what': f'columns {w["cols"]}, rows {w["rows"]}, order {w["order"]}' + (f', row index {INDEX_KINDS[w["index"]](len(w["rows"]))}' if w.get('index', 'default') != 'default' else '') + ': ' + '; '.join(probs)[:400]}
         return {'reproduced': False, 'what': 'faithful'}
     cols, rows, order, cap = frame_for(w['fn'], w['call'])
     cr.GLOBAL_PRIOR_COMB_COUNTS.clear()
